@@ -27,6 +27,14 @@ def _case_of(f: Func, subject: str):
     return out
 
 
+def _loop_subject(f: Func, default: str) -> str:
+    """the variable the function's main `for <v> in <list>:` loop dispatches on"""
+    for n in f.node.body:
+        if isinstance(n, ast.For) and isinstance(n.target, ast.Name):
+            return n.target.id
+    return default
+
+
 def rule_efforder(ctx, prop: str) -> RuleResult:
     """The effect list of a statement is in EVALUATION order: operands are read (expr_effs /
     list_expr_effs of its index, right-hand side, bounds, arguments) before the statement's own
@@ -41,7 +49,8 @@ def rule_efforder(ctx, prop: str) -> RuleResult:
     res.analysed.append(f"{NE}:stmts_effs")
     n_cases = 0
     aliases = {"EConstruct"}
-    for ctors, body, node in _case_of(f, "s"):
+    subj = _loop_subject(f, "s")
+    for ctors, body, node in _case_of(f, subj):
         operand_lines: List[int] = []
         own_lines: List[int] = []
         for st in body:
@@ -95,7 +104,8 @@ def rule_locsets(ctx, prop: str) -> RuleResult:
     OWN = {"GlobalRead": 0, "GlobalWrite": 1, "Read": 2, "Write": 3, "Reduce": 4}
     KILLS = {"GlobalWrite": {(0, "P")}, "Write": {(2, "P")}, "Guard/Loop": {(0, "B1"), (2, "B3")}}
     n_cases = 0
-    for ctors, body, node in _case_of(f, "eff"):
+    subj = _loop_subject(f, "eff")
+    for ctors, body, node in _case_of(f, subj):
         key = "Guard/Loop" if set(ctors) == {"Guard", "Loop"} else (ctors[0] if len(ctors) == 1 else "/".join(ctors))
         points = set()
         bnames: Dict[str, str] = {}
